@@ -322,6 +322,84 @@ def set_order_dependence(index, files):
     return out
 
 
+# ------------------------------------------------------------------------------------------------------------------
+# containers held by objects that live as long as the process (instances bound at class or module level, e.g. Food.conversions)
+
+_CONTAINER_CALLS = ("dict", "list", "set", "defaultdict", "collections.defaultdict", "OrderedDict", "collections.OrderedDict", "Counter")
+_MUTATORS = ("append", "extend", "update", "add", "setdefault", "pop", "popitem", "clear", "insert", "remove", "discard")
+
+
+def process_wide_classes(index, files=None):
+    """class name -> [(rel, node)] for `NAME = SomeClass(...)` at class or module level anywhere in src/ (the instance is created once
+    at import and shared by every run), for classes defined in src/"""
+    defined = {}
+    rels = files or index.py_files("src")
+    for rel in rels:
+        for c in [n for n in ast.walk(index.module(rel)) if isinstance(n, ast.ClassDef)]:
+            defined.setdefault(c.name, []).append((rel, c))
+    out = {}
+    for rel in rels:
+        mod = index.module(rel)
+        scopes = [mod] + [n for n in ast.walk(mod) if isinstance(n, ast.ClassDef)]
+        for sc in scopes:
+            for st in sc.body:
+                if isinstance(st, ast.Assign) and isinstance(st.value, ast.Call) and isinstance(st.value.func, ast.Name) and st.value.func.id in defined:
+                    out.setdefault(st.value.func.id, []).append((rel, st))
+    return out, defined
+
+
+def shared_instance_containers(index, files=None):
+    """-> [(rel, class name, attribute, [sites])]: a dict/list/set attribute of a process-wide instance that a method of the class fills
+    or changes - whatever is put there by one run is still there in the next"""
+    shared, defined = process_wide_classes(index, files)
+    out = []
+    for cname in sorted(shared):
+        for rel, cls in defined[cname]:
+            methods = [m for m in cls.body if isinstance(m, (ast.FunctionDef, ast.AsyncFunctionDef)) and m.args.args]
+            containers = set()
+            for m in methods:
+                sn = m.args.args[0].arg
+                for st in walk_no_nested(m):
+                    if isinstance(st, (ast.Assign, ast.AnnAssign)) and getattr(st, "value", None) is not None:
+                        v = st.value
+                        is_c = isinstance(v, (ast.Dict, ast.List, ast.Set, ast.DictComp, ast.ListComp, ast.SetComp)) or (
+                            isinstance(v, ast.Call) and (dotted(v.func) or "") in _CONTAINER_CALLS)
+                        if is_c:
+                            for t in (st.targets if isinstance(st, ast.Assign) else [st.target]):
+                                if isinstance(t, ast.Attribute) and isinstance(t.value, ast.Name) and t.value.id == sn:
+                                    containers.add(t.attr)
+            for attr in sorted(containers):
+                sites = []
+                for m in methods:
+                    if m.name == "__init__":
+                        continue
+                    sn = m.args.args[0].arg
+                    for st in walk_no_nested(m):
+                        tg = []
+                        if isinstance(st, ast.Assign):
+                            tg = st.targets
+                        elif isinstance(st, (ast.AugAssign, ast.AnnAssign)):
+                            tg = [st.target]
+                        elif isinstance(st, ast.Delete):
+                            tg = st.targets
+                        for t in tg:
+                            b = t
+                            sub = False
+                            while isinstance(b, ast.Subscript):
+                                b, sub = b.value, True
+                            if sub and isinstance(b, ast.Attribute) and b.attr == attr and isinstance(b.value, ast.Name) and b.value.id == sn:
+                                sites.append(f"{m.name}:{st.lineno}")
+                        if isinstance(st, ast.Call) and isinstance(st.func, ast.Attribute) and st.func.attr in _MUTATORS:
+                            b = st.func.value
+                            while isinstance(b, ast.Subscript):
+                                b = b.value
+                            if isinstance(b, ast.Attribute) and b.attr == attr and isinstance(b.value, ast.Name) and b.value.id == sn:
+                                sites.append(f"{m.name}:{st.lineno}")
+                if sites:
+                    out.append((rel, cname, attr, sites, cls))
+    return out
+
+
 def hidden_state_rules(index, rep, rule, files, what):
     """`what` is computed from its inputs only: the given files keep no module-/class-level container their functions write, hand out no
     memoised object that callers modify, and cache no attribute lazily whose inputs are assigned later.  One obligation per file and kind."""
@@ -336,6 +414,13 @@ def hidden_state_rules(index, rep, rule, files, what):
     mine = [f for f in findings if f[0] in files]
     rep.check(not mine, rule, "no memoised result is modified",
               f"{what} can depend on earlier calls/runs: " + "; ".join(f[3] for f in mine[:2]), loc=loc(mine[0][0], mine[0][1]) if mine else files[0])
+    # relevant here: the class is defined in these files, or these files call the method that fills the container
+    called = {n.func.attr for rel in files for n in ast.walk(index.module(rel)) if isinstance(n, ast.Call) and isinstance(n.func, ast.Attribute)}
+    sic = [x for x in shared_instance_containers(index) if x[0] in files or any(s_.split(":")[0] in called for s_ in x[3])]
+    rep.check(not sic, rule, "no container kept by a process-wide object",
+              f"{what} can depend on earlier calls/runs: " + "; ".join(
+                  f"{cn}.{attr} (an instance of {cn} is created once at import and shared) is filled at {sites[:3]}" for _, cn, attr, sites, _ in sic[:3]),
+              loc=loc(sic[0][0], sic[0][4]) if sic else files[0])
     lazy = lazy_attribute_caches(index, files)
     for rel, cn, m, attr, stale, invalidated in lazy:
         rep.check(not stale or bool(invalidated), rule, f"lazy-cache:{cn}.{m.name}:{attr}",
